@@ -60,6 +60,8 @@ class Ctx:
                 resource.setrlimit(resource.RLIMIT_AS, (lim, lim))
         e = dict(os.environ)
         e['RUST_BACKTRACE'] = '0'
+        # the size of the default thread pool is an accident of the environment: no result may depend on it
+        e['RAYON_NUM_THREADS'] = str([1, 2, 3, 5, 8][self.calls % 5])
         if env:
             e.update(env)
         try:
@@ -128,7 +130,9 @@ def _init_worker(modname, bins, wroot):
     signal.signal(signal.SIGINT, signal.SIG_IGN)
     _G['mod'] = importlib.import_module(modname)
     _G['bins'] = bins
-    _G['dir'] = tempfile.mkdtemp(prefix='w', dir=wroot)
+    # working directories with and without dots, dashes and non-ASCII characters in their names: no result may depend on
+    # what the directory part of a path looks like (white space is left out: it separates the columns of file lists)
+    _G['dir'] = tempfile.mkdtemp(prefix='w', suffix=['', '.d', '.v2-\u00e9', '-x.y.z'][os.getpid() % 4], dir=wroot)
 
 
 def _run_one(desc):
